@@ -50,6 +50,8 @@ def cases(tier, seed):
             k += 1
     for j, klass in enumerate(['CPAReverse', 'CPAAttack', 'DPAReverse', 'SNRReverse']):
         out.append(dict(gen='run', klass=klass, rule='int', frame_kind=7, sub=core.subseed('C02f', seed, j), must=True))
+    for j, klass in enumerate(('CPAReverse', 'DPAAttack', 'SNRReverse', 'CPAAttack')):
+        out.append(dict(gen='run', klass=klass, rule='int', peek=True, sub=core.subseed('C02peek', seed, j), must=True))
     rs = np.random.default_rng(core.subseed('C02r', seed))
     n_rand = 500 if tier == 'quick' else 12000
     w = np.array([5 if c in CHEAP else 1 for c in CLASSES], dtype=float)
@@ -332,6 +334,24 @@ def run_case(case):
                     cont = scared.Container(sub, frame=frame) if frame is not None else scared.Container(sub)      # default (shared) preprocesses argument
                 else:
                     cont = scared.Container(sub, frame=frame, preprocesses=list(chain)) if frame is not None or rng.random() < 0.5 else scared.Container(sub, preprocesses=list(chain))
+            pk = int(rng.integers(8)) if not case.get('peek') else int(rng.integers(4))
+            if pk < 4 and len(sub) >= 1:
+                # the user looks at the container before handing it to the analysis (first batch, a loop left early, indexing, printing):
+                # the run still processes every trace once
+                if pk == 0:
+                    b0 = next(iter(cont.batches()))
+                    np.asarray(b0.samples[:])
+                elif pk == 1:
+                    for i_, b_ in enumerate(cont.batches()):
+                        np.asarray(b_.samples[:])
+                        if i_ >= 1:
+                            break
+                elif pk == 2:
+                    bb_ = cont.batches(batch_size=expected_bs if rule != 'float' else None)
+                    len(bb_), np.asarray(bb_[0].samples[:]), next(iter(bb_))
+                else:
+                    str(cont), cont.trace_size, cont.batch_size, len(cont.batches())
+                t.count('container_looked_at_before_run')
             start = len(log_updates)
             a.run(cont)
             run_marks.append((start, len(log_updates)))
